@@ -36,7 +36,7 @@
  "name": "count_tags_strict",
  "props": ["C03"],
  "level": "U",
- "tier": "wip",
+ "tier": "obs",
  "harness": "h_count_tags",
  "enforce": ["count_tags"],
  "replace": ["memcpy"],
@@ -105,6 +105,15 @@
  * `tagp - bh->b_data` in the loop guard.  Nothing is read there, but forming / subtracting such a pointer is
  * undefined in ISO C and CBMC's pointer check reports it ("pointer relation: pointer outside object bounds in
  * tagp", recovery.c loop guard).  Input: blocksize 1024, no csum, 32-bit tags, tag at offset 1012 with flags 0.
+ * DECISION (count_tags.pointer_arithmetic.15 of count_tags_strict): this is the real code on blocks the caller can pass,
+ * not an artefact of the unit.  getblk() allocates sizeof(struct buffer_head) - sizeof(b_data) + blocksize bytes, so b_data
+ * ends exactly at blocksize; a descriptor block whose last tag slot ends at most 16 bytes before `size` and carries neither
+ * SAME_UUID nor LAST_TAG (any stale/corrupted block does; the kernel's own writer always sets LAST_TAG) makes
+ * `tagp += tag_bytes; tagp += 16` form a pointer up to 16 bytes behind the object (one-past-the-end is legal, 2..16 bytes
+ * beyond is not), and the loop guard then subtracts it from bh->b_data.  The same walk is in do_one_pass's tag loop.
+ * Nothing is dereferenced: no read or write leaves the block (that is what the quick units prove), so under C06 this is
+ * an undefined-behaviour observation (ISO C 6.5.6p8), not a memory-safety violation; no sanitizer or native run can show
+ * it (ASan/UBSan do not instrument out-of-bounds pointer formation without overflow).  Kept as a wip unit on purpose.
  *   unit count_tags_strict (tier wip): buffer allocated exactly as getblk() does -> that ONE obligation fails
  *     (and CBMC then reports the obligations behind it as UNKNOWN).
  *   unit count_tags (quick): the buffer carries VERIF_BH_SLACK unreadable bytes so that the pointer formation is
